@@ -69,6 +69,8 @@ class OriginDomain:
                     v = interp.expr(recv, env)
                 except Exception:
                     continue
+                if (isinstance(v, Seq) and v.kind in ("py", "pyabs")) or (isinstance(v, O) and v.local):
+                    continue        # a list / dict built in the analysed code: mutating the container is nobody else's state (as in method())
                 self.sink(v, n, "sink in unmodelled statement")
     def enter_function(self, f, bound, node): pass
     def exit_function(self, f, out, node): return out
@@ -97,6 +99,8 @@ class OriginDomain:
             except Exception: pass
         if isinstance(a, Const) and a.value is None and isinstance(b, O): return b
         if isinstance(b, Const) and b.value is None and isinstance(a, O): return a
+        if isinstance(a, Seq) and isinstance(b, Seq) and a.kind == b.kind == "py" and len(a.items) == len(b.items):
+            return Seq([self.join(x, y, node, silent) for x, y in zip(a.items, b.items)], "py")      # tuples of equal length join element-wise
         loc = lambda v: (isinstance(v, Seq) and v.kind in ("py", "pyabs")) or (isinstance(v, O) and v.local) or isinstance(v, Const)   # literals are fresh containers
         return O(org_of(a) | org_of(b), local=loc(a) and loc(b))
     def truth(self, v):
